@@ -153,6 +153,12 @@ def main():
     extra = F.seq_enumerated()[::3] + F.time_enumerated(rep.tier)[::5] + F.seq_random(rep.seed, 40 if quick else 400)
     for c in extra:
         term_tasks.append(case_to_task(c.with_(stack=96)))
+    # use-site matrix, index and division sites: every kind of index expression against every kind of indexed object (VM = RI incl. fault
+    # flags, and faults are terminal)
+    for c in F.usesite_matrix():
+        if any(k in c.name for k in ('/store-index', '/compound-index', '/load-index', '/vla-length', '/div', '/mod')):
+            ri_tasks.append(case_to_task(c.with_(stack=96), max_steps=8000))
+            term_tasks.append(case_to_task(c.with_(stack=96)))
     run_tasks(rep, ri_tasks)
     run_tasks(rep, pred_tasks, worker=pred_task)
     run_tasks(rep, term_tasks, worker=terminal_task)
